@@ -136,10 +136,13 @@ fn ops(a: &Args, p: &str, n: usize) -> common::Ops {
 /// Replay search for the BMOC harnesses: their symbolic domain is small enough to be enumerated natively (all valid operands of the
 /// harness shape, all probe cells). Used when Kani prints no concrete-playback test for the failed check, or when the exact inputs do
 /// not reproduce (dev-profile-only failures). This is a search for a witness, not the deciding step.
-fn gen_ops(dm: u8, n: usize, k: usize, cur: &mut common::Ops, start: u64, f: &mut dyn FnMut(&common::Ops)) {
+fn gen_ops(dm: u8, n: usize, k: usize, cur: &mut common::Ops, start: u64, f: &mut dyn FnMut(&common::Ops)) { gen_ops_d(dm, None, n, k, cur, start, f) }
+
+fn gen_ops_d(dm: u8, only: Option<u8>, n: usize, k: usize, cur: &mut common::Ops, start: u64, f: &mut dyn FnMut(&common::Ops)) {
   if k == n { f(cur); return; }
   // next entry must start at or after `start` (deepest-level units)
   for d in 0..=dm {
+    if let Some(o) = only { if d != o { continue; } }
     let sh = 2 * (dm - d) as u32;
     let nh = 12u64 << (2 * d as u32);
     let first = (start + (1u64 << sh) - 1) >> sh;
@@ -147,7 +150,7 @@ fn gen_ops(dm: u8, n: usize, k: usize, cur: &mut common::Ops, start: u64, f: &mu
     while h < nh {
       for fl in [false, true].iter() {
         cur.d[k] = d; cur.h[k] = h; cur.f[k] = *fl;
-        gen_ops(dm, n, k + 1, cur, (h + 1) << sh, f);
+        gen_ops_d(dm, only, n, k + 1, cur, (h + 1) << sh, f);
       }
       h += 1;
     }
@@ -186,7 +189,9 @@ fn pack_search(a: &Args) {
   let n = a.u64("na") as usize;
   let dm = a.u8("a_dm");
   let mut oa = common::Ops { dm, n, d: [0; 4], h: [0; 4], f: [false; 4] };
-  gen_ops(dm, n, 0, &mut oa, 0, &mut |x: &common::Ops| {
+  // optional restriction to sequences whose entries all have depth `dfix` (the k_pack_d harnesses)
+  let dfix: Option<u8> = if a.m.contains_key("dfix") { Some(a.u8("dfix")) } else { None };
+  gen_ops_d(dm, dfix, n, 0, &mut oa, 0, &mut |x: &common::Ops| {
     let nh = 12u64 << (2 * dm as u32);
     for k in 0..x.n { let sh = 2 * (dm - x.d[k]) as u32; c07::p_pack(x, x.h[k] << sh); }
     c07::p_pack(x, 0); c07::p_pack(x, nh - 1);
@@ -235,6 +240,13 @@ fn dispatch(name: &str, a: &Args) -> bool {
     "c17_native_plane" => c17::p_c17_native_plane(a.f64("x"), a.f64("y")),
     "c17_base_cell" => c17::p_c17_base_cell(a.f64("x"), a.f64("y")),
     "c17_guard" => c17::p_c17_guard(a.u8("which"), a.f64("a"), a.f64("b")),
+    // boundary radius: the solver chose the libm values, so search a grid of centres next to the reported one
+    "c06_allsky_pi" => {
+      let (d, dl) = (a.u8("depth"), a.u8("delta"));
+      c06::p_c06_allsky(d, dl, a.f64("lon"), a.f64("lat"), std::f64::consts::PI);
+      let mut lo = 0.0f64;
+      while lo < 6.3 { let mut la = -1.5f64; while la <= 1.5 { c06::p_c06_allsky(d, dl, lo, la, std::f64::consts::PI); la += 0.25; } lo += 0.3; }
+    },
     "c06_allsky" => { for r in [std::f64::consts::PI, 3.1415926535897936, 4.0, 1e300, f64::INFINITY].iter() { c06::p_c06_allsky(a.u8("depth"), a.u8("delta"), a.f64("lon"), a.f64("lat"), *r); } },
     "c11_pullback" => c11::p_c11_pullback(a.u32("nside"), a.f64("x"), a.f64("y")),
     "c11_center" => c11::p_c11_center(a.u32("nside"), a.u64("h")),
